@@ -72,7 +72,8 @@ for sd in sorted(glob.glob("/tmp/seed/*C??_?")):
     rnd = "2 (held out: written after the checks had been strengthened on round 1)" if sid.startswith("r2") else \
         "3 (written for the tree that contains the rollback fix)" if sid.startswith("r3") else \
         "4 (held out: one change per property, after the systematic widening)" if sid.startswith("r4") else \
-        "5 (held out: one change per property, authors asked for trigger kinds not used before)" if sid.startswith("r5") else "1"
+        "5 (held out: one change per property, authors asked for trigger kinds not used before)" if sid.startswith("r5") else \
+        "6 (held out: twelve properties, same brief as round 5, after the round-5 extensions)" if sid.startswith("r6") else "1"
     fr, fn = first.get(sid, {}), final.get(sid, {})
     meta = dict(seed=sid, property=prop, round=rnd, summary=title,
                 written_by="independent sub-agent given only the property text and a scratch worktree",
